@@ -244,6 +244,48 @@ theorem every_operation_registered_and_documented :
     ∀ r ∈ table, r.registered = true ∧ r.hasDoc = true := by
   decide +kernel
 
+/-! ### consecutive invocations of a task: every invocation retries as the *task* is configured
+
+`runTask wrapped u shared p invs` runs the invocations `invs` of one task one after the other against the
+params dict the parameter source hands out (`shared`: the same dict object every time, as the default
+`ParamSource` does).  An attempt of the delegate may write into that dict (`Attempt.effect`). -/
+
+/-- the configuration of an invocation is read once, from the dict as it is when the invocation starts:
+    what the delegate writes during the invocation cannot change the run of that invocation -/
+theorem config_read_once (wrapped u : Bool) (store : Params) (atts atts' : List Attempt)
+    (h : atts.map (·.out) = atts'.map (·.out)) :
+    (invoke wrapped u store atts).1 = (invoke wrapped u store atts').1 := by
+  simp [invoke, h]
+
+/-- **k invocations behave like k independent ones**: if no attempt changes the retry-relevant keys of the
+    dict (or every invocation gets a fresh copy), each invocation is exactly `runRegistered … p` on the task's
+    own parameters `p` — so all theorems above (`attempts_bounded`, `fullStatement`, …) hold per invocation -/
+theorem invocations_independent (wrapped u shared : Bool) (p : Params) (invs : List (List Attempt))
+    (h : shared = false ∨ ∀ inv ∈ invs, ∀ a ∈ inv, ∀ s, a.effect s = s) :
+    runTask wrapped u shared p invs = invs.map (fun inv => runRegistered wrapped u p (inv.map (·.out))) :=
+  runSeq_independent wrapped u shared p invs h
+
+/-- … in particular every invocation of a wrapped operation stays within the task's `retries + 1` -/
+theorem every_invocation_bounded (u shared : Bool) (p : Params) (invs : List (List Attempt))
+    (h : shared = false ∨ ∀ inv ∈ invs, ∀ a ∈ inv, ∀ s, a.effect s = s) :
+    ∀ r ∈ runTask true u shared p invs, r.calls ≤ (cfg { p with ctorUntilSuccess := u }).maxAttempts := by
+  rw [invocations_independent true u shared p invs h]
+  intro r hr
+  obtain ⟨inv, _, rfl⟩ := List.mem_map.mp hr
+  simp only [runRegistered, if_true]
+  exact (attempts_bounded _ _).1
+
+/-- the hypothesis is needed: a delegate that writes `retries = sys.maxsize` into a shared dict (as an inner
+    health check with its own budget might) makes the *next* invocation retry without the task's bound -/
+theorem leaked_budget_breaks_next_invocation :
+    let leak : Attempt := ⟨⟨.dictOk, 0⟩, fun p => { p with retries := some (sysMaxsize : Int) }⟩
+    let timeout (i : Nat) : Attempt := ⟨⟨.connTimeout, i⟩, id⟩
+    let p : Params := ⟨false, none, some 1, none, none, none⟩
+    (runTask true false true p [[leak], [timeout 0, timeout 1, timeout 2]]).map (·.res) = [.returned ⟨.dictOk, 0⟩, .pending] ∧
+    (runTask true false false p [[leak], [timeout 0, timeout 1, timeout 2]]).map (·.res)
+      = [.returned ⟨.dictOk, 0⟩, .raised ⟨.connTimeout, 1⟩] := by
+  decide
+
 /-! ### non-vacuity: concrete inputs meeting the hypotheses (tests, labelled as tests) -/
 
 -- the unit-test scenario "mixed timeout and application errors", retries = 5
